@@ -950,7 +950,7 @@ Proof.
 Qed.
 
 Example contour_example :
-  contour_flat (true, [true; true; false; true],
+  contour_flat (true, [true; true; false; true], 0, 0,
                 [(0, 0); (0, 16); (0, 999); (1, 0)],
                 [(0, 8); (0, 24); (2, 0); (0, 8)], Some 3, Some 0, 2, false)
   = [0; 6;  0; 0; 0; 0; 0; 8; 0; 8; 0; 16; 0; 16;
@@ -958,8 +958,17 @@ Example contour_example :
      0; 640; 0; 816; 0; 696; 0; 872; 0; 752; 0; 928].
 Proof. reflexivity. Qed.
 
+(* a log x axis: the non-positive value becomes nan / -inf and is not kept
+   (remove_invalid), the returned points are the unscaled ones *)
+Example down_log_example :
+  down_flat (true, [true; true; true; false], 1, 0,
+             [(0, 8); (0, 0); (0, -8); (0, 999)],
+             [(0, 16); (0, 8); (0, 8); (0, 8)], 2, true)
+  = [1; 0; 8; 0; 16; 1; 0; 0; 0].
+Proof. reflexivity. Qed.
+
 Example down_example :
-  down_flat (true, [true; false; true; true],
+  down_flat (true, [true; false; true; true], 0, 0,
              [(0, 8); (0, 999); (1, 0); (0, 24)],
              [(0, 16); (2, 0); (0, 8); (0, -7)], 2, false)
   = [2; 0; 8; 1; 0; 0; 16; 0; 8; 1; 0; 1; 0].
